@@ -139,8 +139,14 @@ func c11R2(c *Ctx) {
 	if txLen == nil || replay == nil || transition == nil || release == nil || burstAdd == nil || !ok1 || !ok2 {
 		return
 	}
-	staged := func(holds bool) Barrier {
-		return OnCmp(fmt.Sprintf("txLen > 0 is %v", holds), FieldIs(txLen), token.GTR, IsConstInt(0), holds)
+	// "a reply is staged" in any of its equivalent spellings (txLen is a length, never negative)
+	staged := func(holds bool) []Barrier {
+		n := fmt.Sprintf("txLen > 0 is %v", holds)
+		return []Barrier{
+			OnCmp(n, FieldIs(txLen), token.GTR, IsConstInt(0), holds),
+			OnCmp(n, FieldIs(txLen), token.NEQ, IsConstInt(0), holds),
+			OnCmp(n, FieldIs(txLen), token.GEQ, IsConstInt(1), holds),
+		}
 	}
 	relServing := c10CallConstArg(release, 1, serving)
 	handoff := func(in ssa.Instruction) bool {
@@ -156,10 +162,10 @@ func c11R2(c *Ctx) {
 			if body == nil || len(instrsWhere(body, isCallTo(burstAdd))) == 0 {
 				continue
 			}
-			c.MustCross(rule, body, "burst.add (reply staged)", isCallTo(burstAdd), staged(true))
-			c.MustCross(rule, body, "silent release", relServing, staged(false))
+			c.MustCross(rule, body, "burst.add (reply staged)", isCallTo(burstAdd), staged(true)...)
+			c.MustCross(rule, body, "silent release", relServing, staged(false)...)
 			if len(instrsWhere(body, handoff)) > 0 {
-				c.MustCross(rule, body, "handoff to the ring", handoff, staged(false))
+				c.MustCross(rule, body, "handoff to the ring", handoff, staged(false)...)
 				c.MustCross(rule, body, "handoff marks replay", handoff, StoreBarrier("replay = true", replay, IsConstBool(true)))
 			}
 		}
